@@ -332,6 +332,8 @@ func c08Validate(c c08Case, rows map[string]*udRow, out string, o *Obs) error {
 	o.LabelIf(op.Table, "table")
 	o.LabelIf(op.DistPush > 0, "dist-push")
 	o.LabelIf(op.SizeTotal > 0, "size-total")
+	o.LabelIf(op.SizeTotal > 0 && (op.SizeUp != 0 || op.SizeDown != 0 || op.SizeSame != 0 || op.SizeSide != 0), "size-total-overrides-per-bin-sizes")
+	o.LabelIf(op.DistAll > 0 && (op.DistUp != 0 || op.DistDown != 0 || op.DistSide != 0), "dist-all-overrides-per-bin-dists")
 	o.LabelIf(limit != udInf && op.SizeTotal == 0, "size-per-bin")
 	o.LabelIf(dl[1] != udInf, "dist-limits")
 	o.LabelIf(op.NoFill, "no-fill")
@@ -567,6 +569,12 @@ func genUDOpts(t *rapid.T, targets []FaRec, width int) udOpts {
 	case 2: // dist only
 	case 3, 4:
 		o.SizeTotal = rapid.IntRange(1, 9).Draw(t, "sizeTotal")
+		if rapid.IntRange(0, 2).Draw(t, "overriddenSizes") == 0 {
+			// legal: --size-total overrides the per-bin sizes (with a warning on stderr)
+			o.SizeUp = rapid.IntRange(0, 3).Draw(t, "sizeUp")
+			o.SizeDown = rapid.IntRange(0, 3).Draw(t, "sizeDown")
+			o.SizeSame = rapid.IntRange(0, 3).Draw(t, "sizeSame")
+		}
 	default:
 		o.SizeUp = rapid.IntRange(0, 3).Draw(t, "sizeUp")
 		o.SizeDown = rapid.IntRange(0, 3).Draw(t, "sizeDown")
@@ -576,6 +584,11 @@ func genUDOpts(t *rapid.T, targets []FaRec, width int) udOpts {
 	switch rapid.IntRange(0, 3).Draw(t, "distKind") {
 	case 0:
 		o.DistAll = rapid.IntRange(1, 3).Draw(t, "distAll")
+		if rapid.IntRange(0, 2).Draw(t, "overriddenDists") == 0 {
+			// legal: --dist-all overrides the per-bin distances (with a warning on stderr)
+			o.DistUp = rapid.IntRange(0, 3).Draw(t, "distUp")
+			o.DistSide = rapid.IntRange(0, 3).Draw(t, "distSide")
+		}
 	case 1:
 		o.DistUp = rapid.IntRange(0, 3).Draw(t, "distUp")
 		o.DistDown = rapid.IntRange(0, 3).Draw(t, "distDown")
@@ -695,6 +708,7 @@ func genUDInput(t *rapid.T, minQueries int, iupacRef bool) (ref string, queries,
 func genC08(t *rapid.T) c08Case {
 	c := c08Case{}
 	c.Ref, c.Queries, c.Targets = genUDInput(t, 1, false)
+	shareNames(t, c.Queries, c.Targets)
 	c.Opts = genUDOpts(t, c.Targets, len(c.Ref))
 	c.CLI = rapid.IntRange(0, 19).Draw(t, "cli") == 0
 	if rapid.IntRange(0, 2).Draw(t, "mixedInputs") == 0 {
